@@ -35,6 +35,8 @@ def run(ctx):
                    "path and never on the already-retired path; it numbers with cid_deque.largest() and pushes once")
     ctx.rule("R4", "checks present: unknown sequence -> error, peer exceeding active_connection_id_limit -> ConnectionIdLimit, "
                    "limit < 2 -> TransportParameter")
+    ctx.rule("R6", "abandoning a path retires every remote ID its cell still holds: CidCell::retire pops allocated_cids in a loop "
+                   "(until None) and sends one RETIRE_CONNECTION_ID per popped sequence number")
     ctx.rule("R5", "one ID per path at a time: BorrowedCid::drop renews; renew retires the previous ID")
 
     # ---------------------------------------------------------------- R1 / R3 on recv_retire_cid_frame
@@ -210,3 +212,25 @@ def run(ctx):
         ok = any(re.search(r"::(renew|retire)$", callee(t)) for i, t in b.calls())
         ctx.ob("R5", "%s|drop gives the id back" % b.short, ok, b.where(), "calls %s" % [callee(t) for i, t in b.calls()][:6])
     ctx.assume("IndexDeque::largest() is the next unused sequence number (value-level)")
+
+    # ---------------------------------------------------------------- R6
+    cr = ctx.anchor("R6", "qbase::cid::remote_cid::CidCell::retire")
+    if cr:
+        pops = [i for i, t in cr.calls() if re.search(r"VecDeque(<.*>|::<.*>)?::(pop_front|pop_back)$", callee(t)) and
+                any("allocated_cids" in place_fields(pl) for pl in deep_places(cr, t["args"][0], 3))]
+        drains = [i for i, t in cr.calls() if re.search(r"VecDeque(<.*>|::<.*>)?::drain$", callee(t))]
+        sends = call_blocks(cr, r"SendFrame<.*>>::send_frame$|SendFrame::send_frame$")
+        looped = [i for i in pops if i in cr.reachable_from(cr.term(i)["to"]) ] if pops else []
+        # the loop is left only on None
+        only_none = False
+        for i in looped:
+            oe = outcome_edges(cr, i)
+            if oe and oe["err"] and oe["ok"]:
+                back_ok = all(i in cr.reachable_from(x) for x in oe["ok"])
+                exit_none = all(i not in cr.reachable_from(x) for x in oe["err"])
+                per_item = bool(sends) and all(any(sb_ in cr.reachable_from(x, avoid={i}) for sb_ in sends) for x in oe["ok"])
+                only_none = back_ok and exit_none and per_item
+        ctx.ob("R6", "%s|every held ID is retired" % cr.short, bool(drains and sends) or only_none, cr.where(),
+               "pop sites %s (inside a loop: %s), drain sites %s, send_frame sites %s; loop continues on Some and leaves on None with one "
+               "frame per item: %s — retiring only the newest ID leaves an older one (still borrowed across a retire_prior_to switch) "
+               "without its RETIRE_CONNECTION_ID" % (pops, looped, drains, sends, only_none))
